@@ -92,6 +92,12 @@ CHECKS = {
         "Utility duties and temperatures on the target are taken as given (C03/C04 decide them); duties >= 50 kW because the routine rounds to 6 dp internally.",
         "DESIGN.md section 5 C15",
     ),
+    "C16": (
+        "Hypothesis @given problem x channel set x wrapper call sequence (differential across channels); sheet-name predicate on generated label sets",
+        "Generated-input search (160 problems x 3-5 channels quick / 4k thorough, plus 3k / 100k sheet-label sets): plain dict, validated model, value-with-unit dict, JSON file, CSV directory, CSV pair, XLSX workbook and PinchProblem.from_json must give the targets of the plain-dict call exactly (after the root name and the workbook reader's documented label normalisation); target() is cached; exported and directly allocated sheet names are unique, <= 31 characters and free of forbidden characters.",
+        "Input files are written by the harness in the template layout; file channels carry no options or 'active' flags.",
+        "DESIGN.md section 5 C16",
+    ),
     "C17": (
         "Hypothesis @given polylines (targeted on deviation); geometric oracle (point-to-polyline distance, one-sided bound) written in the harness",
         "Generated-input search (3k+400 quick / 100k+10k thorough): clean_composite_curve must return a subsequence covering the whole non-flat extent with every dropped point within 1e-6 of the kept polyline; get_piecewise_data_points must keep both ends and the original order, leave every original point within the requested deviation and respect the hot/cold one-sided bound of a tenth of it.",
